@@ -241,3 +241,162 @@ Lemma dr_class_witnesses :
   dr_class 28 RUp 0 (1 + (1 # 10 ^ 30)) = true /\ round_code 28 true RUp 0 (1 + (1 # 10 ^ 30)) = ROk 1 /\
   round_q RUp 0 (1 + (1 # 10 ^ 30)) == 2.
 Proof. vm_compute. repeat split; reflexivity. Qed.
+
+(* ================= the class exactly, for the three HALF modes ================= *)
+Lemma rsig_half_differs_iff m a b : half_mode m = true -> a < b ->
+  (rsig m a <> rsig m b <->
+   (exists n : Z, 2 * a < inject_Z (2 * n + 1) /\ inject_Z (2 * n + 1) < 2 * b) \/
+   (exists n : Z, 2 * a == inject_Z (2 * n + 1) /\ inject_Z (rsig m a) < a) \/
+   (exists n : Z, 2 * b == inject_Z (2 * n + 1) /\ b < inject_Z (rsig m b))).
+Proof.
+  intros Hh Hab.
+  destruct (rsig_err m a) as [_ Ea]. destruct (rsig_err m b) as [_ Eb]. cbv zeta in *.
+  destruct (Ea Hh) as [Ea1 Ea2]. destruct (Eb Hh) as [Eb1 Eb2].
+  pose proof (rsig_mono m a b (Qlt_le_weak _ _ Hab)) as Hm.
+  split.
+  - intros Hne. assert (Hlt : (rsig m a < rsig m b)%Z) by lia.
+    pose proof (inject_Z_succ_le _ _ Hlt) as Hs.
+    destruct (Qlt_le_dec (2 * a) (inject_Z (2 * rsig m a + 1))) as [H1|H1].
+    + destruct (Qlt_le_dec (inject_Z (2 * rsig m a + 1)) (2 * b)) as [H2|H2].
+      * left. exists (rsig m a). split; assumption.
+      * right. right. exists (rsig m a). rewrite inject_Z_odd in *. split; lra.
+    + right. left. exists (rsig m a). rewrite inject_Z_odd in *. split; lra.
+  - intros [(n & H1 & H2)|[(n & H1 & H2)|(n & H1 & H2)]].
+    + pose proof (rsig_half_jump m a b n Hh H1 H2). lia.
+    + rewrite inject_Z_odd in H1.
+      assert (inject_Z (rsig m a) < inject_Z (n + 1)) as A1 by (rewrite inject_Z_plus; change (inject_Z 1) with 1; lra).
+      assert (inject_Z n < inject_Z (rsig m b)) as A2 by lra.
+      rewrite <- Zlt_Qlt in A1, A2. lia.
+    + rewrite inject_Z_odd in H1.
+      assert (inject_Z (rsig m a) < inject_Z (n + 1)) as A1 by (rewrite inject_Z_plus; change (inject_Z 1) with 1; lra).
+      assert (inject_Z n < inject_Z (rsig m b)) as A2 by lra.
+      rewrite <- Zlt_Qlt in A1, A2. lia.
+Qed.
+
+Lemma is_odd_int_spec t : is_odd_int t = true <-> exists n : Z, t == inject_Z (2 * n + 1).
+Proof.
+  unfold is_odd_int. rewrite andb_true_iff. split.
+  - intros [H1 H2]. apply Qeq_bool_iff in H1. apply Z.odd_spec in H2. destruct H2 as [n Hn]. exists n. rewrite <- Hn. exact H1.
+  - intros [n Hn]. assert (Qfloor t = (2 * n + 1)%Z) as E by (rewrite (Qfloor_comp _ _ Hn); apply Qfloor_Z).
+    rewrite E. split; [apply Qeq_bool_iff; exact Hn|apply odd_2n1].
+Qed.
+
+Lemma odd_between_spec p q :
+  ((Qfloor p + 1 <=? Qceiling q - 1)%Z && ((Qfloor p + 1 <? Qceiling q - 1)%Z || Z.odd (Qfloor p + 1))) = true <->
+  exists n : Z, p < inject_Z (2 * n + 1) /\ inject_Z (2 * n + 1) < q.
+Proof.
+  pose proof (Qlt_floor p) as P1. pose proof (Qfloor_le p) as P0.
+  pose proof (Qceiling_lt q) as Q1. pose proof (Qle_ceiling q) as Q0.
+  split.
+  - intros H. apply andb_true_iff in H. destruct H as [H1 H2]. apply Z.leb_le in H1.
+    destruct (Z.odd (Qfloor p + 1)) eqn:Eo.
+    + apply Z.odd_spec in Eo. destruct Eo as [n Hn]. exists n. rewrite <- Hn. split; [exact P1|].
+      apply (Qle_lt_trans _ (inject_Z (Qceiling q - 1))); [rewrite <- Zle_Qle; exact H1|exact Q1].
+    + rewrite orb_false_r in H2. apply Z.ltb_lt in H2.
+      assert (Z.odd (Qfloor p + 1 + 1) = true) as Eo2 by (rewrite Z.odd_add, Eo; reflexivity).
+      apply Z.odd_spec in Eo2. destruct Eo2 as [n Hn]. exists n. rewrite <- Hn. split.
+      * apply (Qlt_le_trans _ (inject_Z (Qfloor p + 1))); [exact P1|rewrite <- Zle_Qle; lia].
+      * apply (Qle_lt_trans _ (inject_Z (Qceiling q - 1))); [rewrite <- Zle_Qle; lia|exact Q1].
+  - intros (n & H1 & H2).
+    assert (A1 : (Qfloor p < 2 * n + 1)%Z) by (rewrite Zlt_Qlt; apply (Qle_lt_trans _ p); assumption).
+    assert (A2 : (2 * n + 1 < Qceiling q)%Z) by (rewrite Zlt_Qlt; apply (Qlt_le_trans _ q); assumption).
+    apply andb_true_iff. split; [apply Z.leb_le; lia|].
+    destruct (Z.odd (Qfloor p + 1)) eqn:Eo; [apply orb_true_r|]. rewrite orb_false_r. apply Z.ltb_lt.
+    destruct (Z.eq_dec (Qfloor p + 1) (2 * n + 1)) as [E|E]; [rewrite E, odd_2n1 in Eo; discriminate|lia].
+Qed.
+
+Section ATX.
+  Variable s : Q.
+  Hypothesis s_pos : 0 < s.
+
+  Lemma round_at_eq_iff m x y : round_at m s x == round_at m s y <-> rsig m (x * s) = rsig m (y * s).
+  Proof.
+    split; [|apply (round_at_eq_rsig s s_pos)].
+    intros H. destruct (Z.eq_dec (rsig m (x * s)) (rsig m (y * s))) as [E|E]; [exact E|].
+    exfalso. exact (round_at_neq_rsig s s_pos m x y E H).
+  Qed.
+
+  Lemma div_lt_iff (r : Z) t : inject_Z r / s < t <-> inject_Z r < t * s.
+  Proof.
+    split; intros H.
+    - apply Qnot_le_lt. intros H2. apply (Qle_shift_div_l _ _ _ s_pos) in H2. apply (Qlt_not_le _ _ H H2).
+    - apply Qlt_shift_div_r; assumption.
+  Qed.
+  Lemma div_gt_iff (r : Z) t : t < inject_Z r / s <-> t * s < inject_Z r.
+  Proof.
+    split; intros H.
+    - apply Qnot_le_lt. intros H2. apply (Qle_shift_div_r _ _ _ s_pos) in H2. apply (Qlt_not_le _ _ H H2).
+    - apply Qlt_shift_div_l; assumption.
+  Qed.
+
+  Lemma tie_down_iff m t : negb (Qle_bool t (round_at m s t)) = true <-> inject_Z (rsig m (t * s)) < t * s.
+  Proof.
+    rewrite negb_true_iff, Qle_bool_false. rewrite (round_at_rsig s s_pos m t). apply div_lt_iff.
+  Qed.
+  Lemma tie_up_iff m t : negb (Qle_bool (round_at m s t) t) = true <-> t * s < inject_Z (rsig m (t * s)).
+  Proof.
+    rewrite negb_true_iff, Qle_bool_false. rewrite (round_at_rsig s s_pos m t). apply div_gt_iff.
+  Qed.
+
+  Theorem half_class_exact m lo hi : half_mode m = true -> lo < hi ->
+    (((Qfloor (lo * (2 * s)) + 1 <=? Qceiling (hi * (2 * s)) - 1)%Z &&
+      ((Qfloor (lo * (2 * s)) + 1 <? Qceiling (hi * (2 * s)) - 1)%Z || Z.odd (Qfloor (lo * (2 * s)) + 1)))
+     || (is_odd_int (lo * (2 * s)) && negb (Qle_bool lo (round_at m s lo)))
+     || (is_odd_int (hi * (2 * s)) && negb (Qle_bool (round_at m s hi) hi))) = true
+    <-> ~ round_at m s lo == round_at m s hi.
+  Proof.
+    intros Hh Hlt.
+    assert (Hab : lo * s < hi * s) by (apply Qmult_lt_compat_r; assumption).
+    assert (El : lo * (2 * s) == 2 * (lo * s)) by ring. assert (Eh : hi * (2 * s) == 2 * (hi * s)) by ring.
+    rewrite round_at_eq_iff, (rsig_half_differs_iff m _ _ Hh Hab).
+    rewrite !orb_true_iff, odd_between_spec, !andb_true_iff, !is_odd_int_spec, tie_down_iff, tie_up_iff.
+    split.
+    - intros [[(n & H1 & H2)|[(n & H1) H2]]|[(n & H1) H2]].
+      + left. exists n. rewrite <- El, <- Eh. split; assumption.
+      + right. left. exists n. rewrite <- El. split; assumption.
+      + right. right. exists n. rewrite <- Eh. split; assumption.
+    - intros [(n & H1 & H2)|[(n & H1 & H2)|(n & H1 & H2)]].
+      + left. left. exists n. rewrite El, Eh. split; assumption.
+      + left. right. split; [exists n; rewrite El; exact H1|exact H2].
+      + right. split; [exists n; rewrite Eh; exact H1|exact H2].
+  Qed.
+End ATX.
+
+Theorem crosses_half_exact m d x v : half_mode m = true -> ~ x == v ->
+  (crosses_half m d x v = true <-> ~ round_q m d x == round_q m d v).
+Proof.
+  intros Hh Hne. unfold crosses_half, half_inside, round_q. destruct (Qle_bool x v) eqn:E.
+  - apply Qle_bool_iff in E. assert (x < v) as Hlt by (apply Qnot_le_lt; intros H; apply Hne; lra).
+    exact (half_class_exact (pow10 d) (pow10_pos d) m x v Hh Hlt).
+  - apply Qle_bool_false in E. rewrite (half_class_exact (pow10 d) (pow10_pos d) m v x Hh E).
+    split; intros H H2; apply H; symmetry; exact H2.
+Qed.
+
+(* HALF modes: the library's two roundings give the wrong neighbour EXACTLY on dr_class_half *)
+Theorem dr_class_half_exact prec m d x : half_mode m = true ->
+  (dr_class_half prec m d x = true <-> ~ round_q m d (sig_round prec x) == round_q m d x).
+Proof.
+  intros Hh. unfold dr_class_half. cbv zeta. destruct (Qeq_bool (sig_round prec x) x) eqn:E; cbn [negb andb].
+  - apply Qeq_bool_iff in E. split; [discriminate|]. intros H. exfalso. apply H, round_q_compat, E.
+  - assert (Hne : ~ x == sig_round prec x).
+    { intros H. symmetry in H. apply Qeq_bool_iff in H. congruence. }
+    rewrite (crosses_half_exact m d x (sig_round prec x) Hh Hne). split; intros H H2; apply H; symmetry; exact H2.
+Qed.
+
+(* the exact class lies inside the geometric one *)
+Lemma dr_class_half_sub prec m d x : half_mode m = true -> dr_class_half prec m d x = true -> dr_class prec m d x = true.
+Proof.
+  intros Hh H. destruct (dr_class prec m d x) eqn:E; [reflexivity|]. exfalso.
+  apply (proj1 (dr_class_half_exact prec m d x Hh) H). apply dr_class_false_round, E.
+Qed.
+
+Theorem round_code_half_exact prec m d x r : half_mode m = true -> round_code prec true m d x = ROk r ->
+  (r == round_q m d x <-> dr_class_half prec m d x = false).
+Proof.
+  intros Hh. unfold round_code. destruct (Qle_bool (pow10 prec) _); [discriminate|]. intros H. injection H as <-.
+  pose proof (dr_class_half_exact prec m d x Hh) as Hx. destruct (dr_class_half prec m d x).
+  - split; [|discriminate]. intros H. exfalso. apply (proj1 Hx eq_refl), H.
+  - split; [reflexivity|]. intros _.
+    destruct (Qeq_dec (round_q m d (sig_round prec x)) (round_q m d x)) as [H|H]; [exact H|].
+    apply Hx in H. discriminate.
+Qed.
